@@ -482,7 +482,7 @@ def read_union(
         return (schema_name, result)
     elif return_record_name_override and is_single_record_union(writer_schema):
         return result
-    elif return_record_name and extract_record_type(idx_schema) == "record":
+    elif return_record_name and extract_record_type(idx_schema) in ("record", "error"):
         schema_name = (
             idx_reader_schema["name"] if idx_reader_schema else idx_schema["name"]
         )
